@@ -10,8 +10,9 @@
 (* (ii) CONFORMANCE.  While `conf`, every observed event must be the        *)
 (*      matching DeployManager action with the logged post-state; the       *)
 (*      position where the specification can no longer follow is `dpos`.    *)
-(* One line  <<"RESULT", id, dpos, quiescent, a, b, c, d>>  is printed per  *)
-(* execution and path; tools/checks/deploy.py turns them into the verdict.  *)
+(* <<"RESULT", id, pos, dpos, obs, quiescent, a, b, c, d>> is printed at    *)
+(* every quiescent point and <<"END", id, dpos, a, b>> at the end of each   *)
+(* execution; tools/checks/deploy.py turns them into the verdict.           *)
 (***************************************************************************)
 EXTENDS DeployManager, Json
 
@@ -56,7 +57,7 @@ SpecStep ==
     [] ev.e = "pub_closed"   -> PubClosed
     [] ev.e = "req_shutdown" -> ReqShutdown
     [] ev.e = "hn_resolve"   -> HnResolve(ev.r)
-    [] ev.e = "op_begin"     -> OpBegin /\ ev.c = (IF op = "deploy" THEN "Deploy" ELSE "Teardown")
+    [] ev.e = "op_begin"     -> OpBeginM(ev.m) /\ ev.c = (IF op = "deploy" THEN "Deploy" ELSE "Teardown")
     [] ev.e = "op_return"    -> OpReturn(ev.r) /\ ev.c = (IF op = "deploy" THEN "Deploy" ELSE "Teardown")
     [] ev.e = "svc_route"    -> SvcRoute /\ Head(bus).t = ev.t /\ RouteOutcome(ev.t) = ev.out
                                 /\ (ev.t = "manifest" => Head(bus).m = ev.m)
@@ -72,18 +73,21 @@ SpecStep ==
     [] ev.e = "mgr" /\ ev.case = "teardown"  -> MgrTeardown /\ MgrPost
     [] ev.e = "mgr" /\ ev.case = "result"    -> MgrResult /\ oph = ev.r /\ MgrPost
     [] ev.e = "mgr_stopped"  -> MgrExitWait
-    [] ev.e \in {"end", "stuck"} -> UNCHANGED vars
+    [] ev.e \in {"obs", "end", "stuck"} -> UNCHANGED vars
     [] OTHER -> FALSE          \* "inapplicable": the implementation was not where the script expected it
 
 Follow == SpecStep /\ hist' = ObsHist
 
 B(x) == IF x THEN 1 ELSE 0
 
+\* "obs": the harness found the implementation quiescent and looked at the inventory and the hostname service
 Report ==
-  IF ev.e = "end" THEN
-    PrintT(<<"RESULT", tid, dpos, B(ev.obs), B(conf /\ Quiescent),
+  IF ev.e = "obs" THEN
+    PrintT(<<"RESULT", tid, l, dpos, B(ev.obs), B(conf /\ Quiescent),
              B(NoConcurrentOps(hist)), B(NoDeployAfterTeardownRequested(hist)),
              B(ClosedThenTornDownAndReleased(hist, ev.resv, ev.hn)), B(LastDeployUsesLatestManifest(hist))>>)
+  ELSE IF ev.e = "end" THEN
+    PrintT(<<"END", tid, dpos, B(NoConcurrentOps(hist)), B(NoDeployAfterTeardownRequested(hist))>>)
   ELSE IF ev.e = "stuck" THEN PrintT(<<"STUCK", tid>>)
   ELSE TRUE
 
